@@ -276,6 +276,12 @@ Definition ob_blocked (p : ob_params) (mode : Z) (ca : list (Z * Z)) (x : ob_sub
   (obpr_nstart p <=? ob_ca_get ca (obsb_sess x)) &&
   ((mode =? 1) || (obpr_max_non p <=? obsb_non x)).
 
+(* a large (Block2) transmission to the session is unfinished and younger than 2 s
+   (lg_xmit->last_all_sent == 0 && last_obs + 2 s > now): like con_active this is an input of the
+   step; it travels in the same list under the key  session + ob_lg_off *)
+Definition ob_lg_off : Z := 1048576.
+Definition ob_in_transfer (ca : list (Z * Z)) (s : Z) : bool := 0 <? ob_ca_get ca (s + ob_lg_off).
+
 (* the type of the notification: NON unless NOTIFY_CON or the NON budget is used up *)
 Definition ob_is_con (p : ob_params) (mode : Z) (x : ob_sub) : bool :=
   negb (negb (mode =? 1) && ((mode =? 2) || (obsb_non x <? obpr_max_non p))).
@@ -304,6 +310,11 @@ Fixpoint ob_notify_subs (p : ob_params) (r : ob_res) (subs : list ob_sub) (l : o
         let '(tl', pd, l', outs) := ob_notify_subs p r tl (ob_lp_pend l) in
         (x :: tl', pd, l', outs)
       else if ob_blocked p (obrs_mode r) (oblp_ca l) x then
+        let x' := ob_mk_sub (obsb_sess x) (obsb_tok x) (obsb_key x) (obsb_non x) (obsb_fail x) true (obsb_last x) in
+        let '(tl', pd, l', outs) := ob_notify_subs p r tl (ob_lp_pend l) in
+        (x' :: tl', true, l', outs)
+      else if ob_in_transfer (oblp_ca l) (obsb_sess x) then
+        (* waiting for the previous blocked unsolicited response to finish: deferred, stays dirty *)
         let x' := ob_mk_sub (obsb_sess x) (obsb_tok x) (obsb_key x) (obsb_non x) (obsb_fail x) true (obsb_last x) in
         let '(tl', pd, l', outs) := ob_notify_subs p r tl (ob_lp_pend l) in
         (x' :: tl', true, l', outs)
@@ -440,7 +451,7 @@ Fixpoint ob_gone_subs (p : ob_params) (r : ob_res) (ca : list (Z * Z)) (subs : l
   | [] => ([], rf)
   | x :: tl =>
       let '(outs, rf') := ob_gone_subs p r ca tl (ob_ref_add rf (obsb_sess x) (-1)) in
-      if ob_blocked p (obrs_mode r) ca x then (outs, rf')
+      if ob_blocked p (obrs_mode r) ca x || ob_in_transfer ca (obsb_sess x) then (outs, rf')
       else (ObGone (obrs_id r) (obsb_sess x) (obsb_tok x) :: outs, rf')
   end.
 
